@@ -163,6 +163,51 @@ TYPES = {
 }
 
 
+
+# ---- every further primitive element type: extreme values of the type (suffix on every token, so the `vec![…]` the macro
+# formats has that type — Debug prints no suffix), (source token, Debug text, canonical Debug of the parsed element)
+NUM_TABLES = {
+    "u8": ["0", "255", "1", "127", "128", "254", "17"],
+    "i8": ["-128", "127", "0", "-1", "100", "-127"],
+    "i16": ["-32768", "32767", "0", "-255", "256"],
+    "u16": ["65535", "0", "256", "1000", "32768"],
+    "u32": ["4294967295", "0", "65536", "7", "2147483648"],
+    "i64": ["9007199254740993", "-9007199254740993", "9223372036854775807", "-9223372036854775808", "0", "-1", "4294967296"],
+    "u64": ["18446744073709551615", "9007199254740993", "0", "1", "9223372036854775808"],
+    "usize": ["18446744073709551615", "0", "4096", "1001"],
+    "isize": ["-9223372036854775808", "9223372036854775807", "0", "-17"],
+}
+# floats: (token, Debug text)
+F32_TABLE = [("0.1f32", "0.1"), ("16777216.0f32", "16777216.0"), ("-0.0f32", "-0.0"), ("3.4028235e38f32", "3.4028235e38"), ("1e-45f32", "1e-45"),
+             ("1.5f32", "1.5"), ("0.3f32", "0.3"), ("-2.75f32", "-2.75")]
+F64X_TABLE = [("-0.0", "-0.0"), ("5e-324", "5e-324"), ("1e300", "1e300"), ("0.1", "0.1"), ("1.7976931348623157e308", "1.7976931348623157e308"),
+              ("2.2250738585072014e-308", "2.2250738585072014e-308"), ("9007199254740992.0", "9007199254740992.0"), ("f64::INFINITY", "inf"),
+              ("f64::NEG_INFINITY", "-inf"), ("f64::NAN", "NaN"), ("0.30000000000000004", "0.30000000000000004"), ("-1e-7", "-1e-7")]
+
+
+def num_leaf(ty):
+    tab = NUM_TABLES[ty]
+    def lf(k):
+        v = tab[k % len(tab)]
+        return (f"{v}{ty}", v, v)
+    return lf
+
+
+def leaf_f32(k):
+    t, d = F32_TABLE[k % len(F32_TABLE)]
+    return (t, d, d)
+
+
+def leaf_f64x(k):
+    t, d = F64X_TABLE[k % len(F64X_TABLE)]
+    return (t, d, d)
+
+
+for _ty in NUM_TABLES: TYPES[_ty] = (_ty, "generic", 1, num_leaf(_ty))
+TYPES["f32"] = ("f32", "generic", 1, leaf_f32)
+TYPES["f64x"] = ("f64", "generic", 1, leaf_f64x)
+
+
 def nested_src(shape, toks):
     """source text of the nested bracket expression"""
     if not shape: return toks[0]
@@ -263,6 +308,37 @@ def build():
     add_nested("T2s", [2], [('("a,b", "c")', '("a,b", "c")', 'Tuple2("a,b", "c")'), ('("d", "e")', '("d", "e")', 'Tuple2("d", "e")')],
                scope="out", note="comma inside a tuple component (Tuple2::from_str splits on commas)")
 
+    # ---- robustness streams (FRAMEWORK.md): appended, so the ids of the literals above do not move
+    # every further primitive element type with the extreme values of the type; nested, multi-argument and flat forms
+    for ty in list(NUM_TABLES) + ["f32", "f64x"]:
+        for s in ([1], [2], [4], [1, 2], [2, 1], [2, 2], [2, 3], [2, 1, 2], [1, 2, 1], [1, 2, 1, 3], [3, 4], [9]): once(ty, s)
+        for n in (1, 3): add_args(ty, n)
+        for n in (1, 2, 4): add_flat(ty, n)
+    # sizes beyond the small scope: axis lengths 7..17 in every position, element counts above 256 and above 1000
+    for s in ([8], [17], [7, 9], [9, 7], [3, 8], [2, 8, 3], [3, 2, 8], [8, 2, 3], [16, 17], [17, 16], [300], [4, 4, 4, 4], [1030], [40, 30], [7, 1, 9], [1, 16, 1, 17],
+              [2, 3, 4, 5], [1001, 1], [1, 1001]): once("i32", s)
+    for ty, ss in (("f64", ([17], [8, 3], [3, 9])), ("bool", ([16], [2, 8])), ("char", ([16], [3, 8], [2, 8, 2])), ("String", ([17], [3, 8], [8, 3], [260])),
+                   ("T2", ([9], [2, 8], [8, 2], [300])), ("T3", ([9], [2, 8], [8, 1, 2], [300])), ("List", ([9], [2, 8], [8, 2], [300])),
+                   ("T2s", ([8], [2, 7])), ("T3s", ([9], [2, 8], [7, 2])), ("ListS", ([8], [2, 7])), ("u8", ([260], [17, 16])), ("i64", ([16, 17],)), ("f32", ([7, 9],))):
+        for s in ss: once(ty, s)
+    add_args("i32", 17); add_args("String", 9); add_args("T3", 8); add_flat("i32", 300); add_flat("T2", 9); add_flat("u8", 260)
+    # pairs / triples / lists whose String components hold blanks or are empty
+    q = rust_str_debug
+    def t2(a, b): return (f"({q(a)}, {q(b)})", f"({q(a)}, {q(b)})", f"Tuple2({q(a)}, {q(b)})")
+    def t3(a, b, c): return (f"({q(a)}, {q(b)}, {q(c)})", f"({q(a)}, {q(b)}, {q(c)})", f"Tuple3({q(a)}, {q(b)}, {q(c)})")
+    def ls(*xs): body = ", ".join(q(x) for x in xs); return (f"vec![{body}]", f"[{body}]", f"List([{body}])")
+    add_nested("T2s", [2, 2], [t2("new york", "a b c"), t2("", "x"), t2("y", ""), t2("", "")], note="blanks inside / empty components")
+    add_nested("T2s", [3], [t2("  ", "a  b"), t2("trail ", "mid dle"), t2(" lead", "z ")], note="blank-only, double blank, trailing blank; a leading blank in the FIRST component")
+    add_nested("T3s", [2, 2], [t3("new york", "a b", "c d e"), t3("", "x", ""), t3("y", "", "z z"), t3("", "", "")], note="blanks inside / empty components")
+    add_nested("T3s", [3], [t3("  ", "a  b", "q"), t3("trail ", "mid dle", "end "), t3(" lead", "z ", "w")], note="blank-only, double blank, trailing blank; a leading blank in the FIRST component")
+    add_nested("T3", [2, 1], [("(1, true, 2.5)", "(1, true, 2.5)", "Tuple3(1, true, 2.5)"), ("(-2147483648, false, -0.0)", "(-2147483648, false, -0.0)", "Tuple3(-2147483648, false, -0.0)")], note="extreme numeric components")
+    add_nested("ListS", [2, 2], [ls("new york", "a b"), ls("x y z"), ls("trail ", "mid  dle", "q"), ls("  ")], note="blanks inside list items")
+    add_nested("T2s", [2], [t2("a", " lead"), t2("b", "c")], scope="out", note="a String component that starts with a blank in a non-first position: `\\\", \\\"` -> `\\\",\\\"` then the quotes are dropped, and Tuple2::from_str compacts `, `")
+    add_nested("T3s", [2], [t3("a", "b", " lead"), t3("b", "c", "d")], scope="out", note="a String component that starts with a blank in a non-first position")
+    add_nested("ListS", [2], [ls("a", " lead"), ls("b")], scope="out", note="a list item that starts with a blank in a non-first position")
+    add_nested("ListS", [2], [ls("", "a"), ls("b")], scope="out", note="an empty String as list item")
+    add_nested("ListS", [2], [ls(""), ls("b")], scope="out", note="a list holding one empty String prints like the empty list")
+
 
 # ---- macros that stand for functions: (macro expression, function expression, element type)
 CTORS = []
@@ -313,6 +389,36 @@ def build_ctors():
     c("Tuple2<i32, f64>", "array_flat!(Tuple2<i32, f64>, (1, 2.5), (3, 4.5))", "Array::<Tuple2<i32, f64>>::flat(vec![Tuple2(1, 2.5), Tuple2(3, 4.5)])")
     c("Tuple3<i32, bool, f64>", "array_flat!(Tuple3<i32, bool, f64>, (1, true, 2.5), (3, false, 4.5))", "Array::<Tuple3<i32, bool, f64>>::flat(vec![Tuple3(1, true, 2.5), Tuple3(3, false, 4.5)])")
     c("List<i32>", "array_flat!(List<i32>, vec![1, 2], vec![3])", "Array::<List<i32>>::flat(vec![List(vec![1, 2]), List(vec![3])])")
+
+    # robustness streams: further element types, bigger / zero-length dimensions
+    for ty in ("u8", "i8", "i16", "u16", "u32", "i64", "u64", "usize", "isize", "f32"):
+        fl = ty in ("f32",)
+        for dims in ("3", "2, 3", "17, 16", "0, 0", "0, 2", "2, 0, 3", "4100"):
+            c(ty, f"array_zeros!({ty}, {dims})", f"Array::<{ty}>::zeros(vec![{dims}])")
+            c(ty, f"array_ones!({ty}, {dims})", f"Array::<{ty}>::ones(vec![{dims}])")
+        c(ty, f"array_full!({ty}, vec![7, 9], {'7.5' if fl else '7'})", f"Array::<{ty}>::full(vec![7, 9], {'7.5' if fl else '7'})")
+        c(ty, f"array_eye!({ty}, 17)", f"Array::<{ty}>::eye(17, Some(17), Some(0))")
+        c(ty, f"array_eye!({ty}, 8, 9, 1)", f"Array::<{ty}>::eye(8, Some(9), Some(1))")
+        c(ty, f"array_identity!({ty}, 16)", f"Array::<{ty}>::identity(16)")
+        one = (lambda x: f"{x}.") if fl else (lambda x: str(x))
+        c(ty, f"array_arange!({ty}, {one(0)}, {one(100)})", f"Array::<{ty}>::arange({one(0)}, {one(100)}, None)")
+        c(ty, f"array_arange!({ty}, {one(1)}, {one(120)}, {one(7)})", f"Array::<{ty}>::arange({one(1)}, {one(120)}, Some({one(7)}))")
+        ex = {"u8": "255", "i8": "-128", "i16": "-32768", "u16": "65535", "u32": "4294967295", "i64": "9007199254740993", "u64": "18446744073709551615",
+              "usize": "18446744073709551615", "isize": "-9223372036854775808", "f32": "-0.0"}[ty] + ty
+        c(ty, f"array_single!({ty}, {ex})", f"Array::<{ty}>::single({ex})")
+        c(ty, f"array_flat!({ty}, {ex}, {one(1)}, {one(0)})", f"Array::<{ty}>::flat(vec![{ex}, {one(1)}, {one(0)}])")
+    for ty in ("i32", "f64"):
+        for dims in ("17, 16", "0, 0", "0, 2", "2, 0, 3", "4100", "2, 3, 4, 5, 2"):
+            c(ty, f"array_zeros!({ty}, {dims})", f"Array::<{ty}>::zeros(vec![{dims}])")
+            c(ty, f"array_ones!({ty}, {dims})", f"Array::<{ty}>::ones(vec![{dims}])")
+        c(ty, f"array_eye!({ty}, 17)", f"Array::<{ty}>::eye(17, Some(17), Some(0))")
+        c(ty, f"array_eye!({ty}, 16, 17, 2)", f"Array::<{ty}>::eye(16, Some(17), Some(2))")
+        c(ty, f"array_identity!({ty}, 17)", f"Array::<{ty}>::identity(17)")
+    c("f64", "array_single!(f64, -0.0)", "Array::<f64>::single(-0.0)")
+    c("f64", "array_single!(f64, f64::NAN)", "Array::<f64>::single(f64::NAN)")
+    c("f64", "array_flat!(f64, -0.0, 5e-324, f64::NAN, 1e300)", "Array::<f64>::flat(vec![-0.0, 5e-324, f64::NAN, 1e300])")
+    c("Tuple3<String, i32, f64>", 'array_single!(Tuple3<String, i32, f64>, ("new york", 1, 2.5))', 'Array::<Tuple3<String, i32, f64>>::single(Tuple3("new york".to_string(), 1, 2.5))')
+    c("Tuple3<String, i32, f64>", 'array_flat!(Tuple3<String, i32, f64>, ("new york", 1, 2.5), ("", -2, -0.0))', 'Array::<Tuple3<String, i32, f64>>::flat(vec![Tuple3("new york".to_string(), 1, 2.5), Tuple3(String::new(), -2, -0.0)])')
 
 
 def rs_str(s):
